@@ -8,11 +8,11 @@ import typing as t
 
 from .. import astq
 from ..cfg import Node
-from ..dataflow import Def
+from ..dataflow import Def, bound_in_enclosing_comp
 from ..fold import Folder, RegexConst, single_class
 from ..loader import AnalysisError, FuncInfo, dotted, norm
 from ..report import Ctx
-from ._c14_helpers import J_, JOIN, T_, X_, Atom, Nulls, Prov, Summary, Unit, ancestor_conds, const_fact, empty_test, harmless_const, helper_atoms, implied, join_kind, nested_defs, own_nodes, parse_atom, position
+from ._c14_helpers import J_, JOIN, T_, X_, Atom, Nulls, Prov, Summary, Unit, ancestor_conds, const_fact, empty_test, growth_args, harmless_const, held_elements, helper_atoms, implied, join_kind, nested_defs, own_nodes, parse_atom, position
 
 LEVEL_TEXT = (
     "Static decision of structural clauses of C14 on /repo's current source (POSIX path semantics). (R14.1) in "
@@ -83,8 +83,22 @@ LEVEL_TEXT = (
     "`''.join(ch for ch in x if <keep>)` comprehension (inline or bound to a local; keep conditions: regex match, "
     "membership in a constant, str character-class methods, and / or / not of these) - whose kept "
     "alphabet is ASCII without '/', '\\\\' and whitespace, and a strip() of a set containing '.' is applied after every "
-    "operation that can delete characters; later edits only add non-dot leading characters from that alphabet. Not "
-    "decided: posixpath.normpath's contract ('..' survives only as leading segments - trusted), symlinks, Windows "
+    "operation that can delete characters; later edits only add non-dot leading characters from that alphabet. "
+    "(R14.5) a safe_join result is contained in the BASE (first argument) of that call and in nothing narrower - each "
+    "further argument is normalised as one string, so a directory name that reached such an argument in one string with "
+    "request data is ordinary text there and the request's '..' segments consume it. At every safe_join call (same "
+    "units as R14.2) that has a request-derived component argument, the history of that argument - backwards through "
+    "reaching definitions, conditional arms, list / tuple holders and what is appended to them, parameters of followed "
+    "helpers (their call sites) and results of followed helpers (their returns) - contains no place where a path is "
+    "put together (os.path.join / posixpath.join, `+`, `+=`, `%`, f-string, `<const>.join([...])`, str.format, pathlib "
+    "`/` / joinpath) from a request-derived operand and a trusted operand that is not constant text (a parameter, "
+    "configuration, a closure variable, a safe_join result); literals, module-level names and locals bound only to "
+    "such are constant text, and a trusted value passed as a component argument of its own is checked on its own. In "
+    "send_from_directory (and the helpers it calls) the base of every such call depends on the `directory` parameter "
+    "on every reaching definition and every arm of a selection (within one expression: some operand does). Not "
+    "decided: that a constant prefix joined to the request data (`'css/' + path`) was meant as part of the trusted "
+    "directory; which configuration value SharedDataMiddleware's loaders are meant to be contained in beyond the base "
+    "being trusted; posixpath.normpath's contract ('..' survives only as leading segments - trusted), symlinks, Windows "
     "drive / UNC forms, that SharedDataMiddleware hands loaders only the suffix after the export prefix (not needed "
     "for containment), that no component is dropped on a non-refusing path of safe_join's loop (a functional, not a "
     "containment property), the NFKD / ASCII-fold quality of secure_filename, and idempotence of secure_filename as "
@@ -1524,6 +1538,345 @@ def _sinks_rule(ctx: Ctx) -> None:
     ctx.note(f"R14.2: {sum(n_sinks.values())} sink(s) in {len(flow.units)} unit(s)" + (f"; helpers followed: {helpers}" if helpers else ""))
     ctx.note(f"R14.3: {n_none} None test(s), {n_use} use(s) of possibly-None results examined")
     _fallthrough_rule(ctx, flow)
+    _base_side_rule(ctx, flow)
+
+
+# =====================================================================
+# R14.5: which directory a safe_join result is contained in
+
+
+class _Side:
+    """what stands on the *untrusted side* of a safe_join call.
+
+    safe_join(B, c1, ..., cn) contains its result in B - and in nothing narrower: every ci is normalised as one
+    string, so a directory name that was put into ci together with request data (`join(directory, path)`) is
+    ordinary text there and `..` segments of the request consume it.  The walk goes backwards from a component
+    argument through reaching definitions, conditional arms, containers, parameters of followed helpers (their call
+    sites) and results of followed helpers (their returns), and looks at every place where a path is put together:
+    os.path.join / posixpath.join, `+`, `%`, f-strings, `sep.join([...])`, `str.format`, `+=`."""
+
+    def __init__(self, flow: _Flow):
+        self.flow = flow
+        self._busy: set[tuple[int, int]] = set()
+
+    # -- constants ---------------------------------------------------------
+    def is_const(self, u: Unit, e: ast.AST | None, node: Node | None, depth: int = 0) -> bool:
+        """text that does not depend on configuration or the request: literals, module-level names (os.sep, a
+        module constant), locals bound to such values only."""
+        if e is None:
+            return True
+        if depth > 6:
+            return False
+        if isinstance(e, ast.Constant):
+            return True
+        if isinstance(e, ast.Name):
+            if u.lambda_param(e) or bound_in_comp(e, u.node):
+                return False
+            host: Unit | None = u
+            defs: list[Def] | None = None
+            if node is not None and u._is_local(e.id):
+                defs = list(u.rd.reaching(node, e.id))
+            else:
+                host = u.enclosing
+                while host is not None and not host._is_local(e.id):
+                    host = host.enclosing
+                if host is None:
+                    return True  # module-level name
+                defs = [x for ds in host.rd.gen.values() for x in ds if x.name == e.id] + [x for x in host.rd.param_defs if x.name == e.id]
+            return bool(defs) and all(d.kind in ("assign", "walrus") and d.index is None and d.value is not None and self.is_const(host, d.value, d.node, depth + 1) for d in defs)  # type: ignore[arg-type]
+        if isinstance(e, ast.Attribute):
+            return self.is_const(u, e.value, node, depth + 1)  # os.sep: a module; self.x / kwargs.y: configuration
+        if isinstance(e, ast.Call):
+            parts = [e.func] + [a.value if isinstance(a, ast.Starred) else a for a in e.args] + [k.value for k in e.keywords]
+            return all(self.is_const(u, c, node, depth + 1) for c in parts)
+        return all(self.is_const(u, c, node, depth + 1) for c in ast.iter_child_nodes(e) if isinstance(c, ast.expr))
+
+    # -- places where a path is put together ------------------------------------------
+    def operands(self, u: Unit, e: ast.AST, node: Node | None) -> list[ast.AST] | None:
+        ops: list[ast.AST] | None = None
+        if isinstance(e, ast.Call) and u.resolve(e.func) in JOIN:
+            ops = list(e.args) + [k.value for k in e.keywords]
+        elif isinstance(e, ast.BinOp) and isinstance(e.op, ast.Add):
+            ops = [e.left, e.right]
+        elif isinstance(e, ast.BinOp) and isinstance(e.op, ast.Mod):
+            ops = [e.left] + (list(e.right.elts) if isinstance(e.right, ast.Tuple) else list(e.right.values) if isinstance(e.right, ast.Dict) else [e.right])
+        elif isinstance(e, ast.JoinedStr):
+            ops = [v.value for v in e.values if isinstance(v, ast.FormattedValue)]
+        elif isinstance(e, ast.Call) and isinstance(e.func, ast.Attribute) and e.func.attr == "join" and len(e.args) == 1 and not e.keywords and self.is_const(u, e.func.value, node):
+            ops = [e.args[0]]
+        elif isinstance(e, ast.Call) and isinstance(e.func, ast.Attribute) and e.func.attr in ("format", "format_map") and self.is_const(u, e.func.value, node):
+            ops = list(e.args) + [k.value for k in e.keywords]
+        elif isinstance(e, ast.Call) and isinstance(e.func, ast.Attribute) and e.func.attr in ("joinpath", "with_name", "with_segments") and not e.keywords:
+            ops = [e.func.value] + list(e.args)  # pathlib spelling of the join
+        elif isinstance(e, ast.BinOp) and isinstance(e.op, ast.Div):
+            ops = [e.left, e.right]  # pathlib `/`
+        if ops is None:
+            return None
+        out: list[ast.AST] = []
+        for o in ops:
+            out += self.spread(u, o.value if isinstance(o, ast.Starred) else o, node)
+        return out
+
+    def spread(self, u: Unit, e: ast.AST, node: Node | None, depth: int = 0) -> list[ast.AST]:
+        """a list / tuple that merely holds path values stands for its elements (display, list(...), a local name
+        bound to one, what is appended to it)."""
+        if depth > 4:
+            return [e]
+        el = held_elements(e)
+        if el is not None:
+            return [y for x in el for y in self.spread(u, x, node, depth + 1)]
+        if isinstance(e, (ast.ListComp, ast.GeneratorExp)):
+            return [e.elt] + [g.iter for g in e.generators]
+        if isinstance(e, ast.Name) and node is not None and u._is_local(e.id) and e.id not in u.params:
+            defs = u.rd.reaching(node, e.id)
+            if defs and all(d.kind in ("assign", "walrus") and d.index is None and d.node is not None and held_elements(d.value) is not None for d in defs):
+                out: list[ast.AST] = []
+                for d in sorted(defs, key=lambda d: getattr(d.stmt, "lineno", 0)):
+                    for x in held_elements(d.value) or []:
+                        out += self.spread(u, x, d.node, depth + 1)
+                for st, v, _seq in growth_args(u.node, e.id):
+                    out += self.spread(u, v, u.cfg.node_of(st), depth + 1)
+                return out
+        return [e]
+
+    def judge(self, u: Unit, e: ast.AST, ops: list[ast.AST], node: Node | None) -> str | None:
+        prov = self.flow.prov(u)
+        tainted = None
+        trusted = None
+        for o in ops:
+            on = self._node_of(u, o, node)
+            k, _ = prov.kind(o, on, 0, ancestor_conds(u, o))
+            if k == X_:
+                tainted = tainted or o
+            elif not self.is_const(u, o, on):
+                trusted = trusted or o
+        if tainted is not None and trusted is not None:
+            return f"`{norm(e)[:80]}` puts the trusted `{norm(trusted)[:40]}` and the request-derived `{norm(tainted)[:40]}` into one string"
+        return None
+
+    @staticmethod
+    def _node_of(u: Unit, e: ast.AST, fallback: Node | None) -> Node | None:
+        """the CFG node of the statement an expression belongs to (elements of a container bound earlier are
+        evaluated there, not at the place that spreads the container)."""
+        cur: ast.AST | None = e
+        while cur is not None and cur is not u.node:
+            if isinstance(cur, ast.stmt):
+                n = u.cfg.node_of(cur)
+                return n if n is not None else fallback
+            cur = astq.parent(cur)
+        return fallback
+
+    # -- the walk ----------------------------------------------------------------
+    def mixed(self, u: Unit, e: ast.AST | None, node: Node | None, depth: int = 0) -> str | None:
+        """a description of the first place in the history of `e` where trusted, non-constant text and
+        request-derived data are put into one string; None when there is none."""
+        if e is None or isinstance(e, ast.Constant) or depth > 12:
+            return None
+        key = (id(u), id(e))
+        if key in self._busy:
+            return None
+        self._busy.add(key)
+        try:
+            return self._mixed(u, e, node, depth)
+        finally:
+            self._busy.discard(key)
+
+    def _mixed(self, u: Unit, e: ast.AST, node: Node | None, depth: int) -> str | None:
+        flow = self.flow
+        if isinstance(e, ast.Call) and _is_safe_join(u, e):
+            return None  # a containment check of its own, judged at its own call site
+        ops = self.operands(u, e, node)
+        if ops is not None:
+            r = self.judge(u, e, ops, node)
+            if r is not None:
+                return r
+            for o in ops:
+                r = self.mixed(u, o, self._node_of(u, o, node), depth + 1)
+                if r is not None:
+                    return r
+            return None
+        if isinstance(e, ast.Name):
+            if u.lambda_param(e):
+                return None
+            g = bound_in_comp(e, u.node)
+            if g is not None:
+                return self.mixed(u, g.iter, node, depth + 1)
+            if node is not None and u._is_local(e.id):
+                defs = list(u.rd.reaching(node, e.id))
+                host = u
+            else:
+                host = u.enclosing  # type: ignore[assignment]
+                while host is not None and not host._is_local(e.id):
+                    host = host.enclosing  # type: ignore[assignment]
+                if host is None:
+                    return None
+                defs = [x for ds in host.rd.gen.values() for x in ds if x.name == e.id] + [x for x in host.rd.param_defs if x.name == e.id]
+            for d in sorted(defs, key=lambda d: getattr(d.stmt, "lineno", 0)):
+                r = self.mixed_def(host, d, depth + 1)
+                if r is not None:
+                    return r
+            for st, v, _seq in growth_args(host.node, e.id):
+                r = self.mixed(host, v, host.cfg.node_of(st), depth + 1)
+                if r is not None:
+                    return r
+            return None
+        if isinstance(e, ast.IfExp):
+            return self.mixed(u, e.body, node, depth + 1) or self.mixed(u, e.orelse, node, depth + 1)
+        if isinstance(e, ast.Lambda):
+            return self.mixed(u, e.body, node, depth + 1)
+        if isinstance(e, ast.Call):
+            tg = flow.target_of(u, e)
+            if tg is not None:
+                hu = flow.by_func.get(id(tg[0].node))
+                if hu is not None:
+                    for r_ in astq.returns_of(hu.node):
+                        r = self.mixed(hu, r_.value, hu.cfg.node_of(r_), depth + 1)
+                        if r is not None:
+                            return r
+        for ch in ast.iter_child_nodes(e):
+            if isinstance(ch, ast.expr):
+                r = self.mixed(u, ch, node, depth + 1)
+                if r is not None:
+                    return r
+            elif isinstance(ch, (ast.comprehension, ast.keyword)):
+                for sub in ast.iter_child_nodes(ch):
+                    if isinstance(sub, ast.expr) and not (isinstance(sub, ast.Name) and isinstance(sub.ctx, ast.Store)):
+                        r = self.mixed(u, sub, node, depth + 1)
+                        if r is not None:
+                            return r
+        return None
+
+    def mixed_def(self, u: Unit, d: Def, depth: int) -> str | None:
+        flow = self.flow
+        if d.kind == "param":
+            if not u.helper:
+                return None  # a root: its parameters are what the framework / the request hands in
+            for cu, c, off in flow.sites_of(u):
+                for pname, arg in flow.bind(u, off, c):
+                    if pname == d.name:
+                        r = self.mixed(cu, arg, cu.cfg.node_of(c), depth + 1)
+                        if r is not None:
+                            return r
+            return None
+        if d.value is None or d.kind in ("import", "def", "except", "del"):
+            return None
+        v = d.value
+        if d.kind == "unpack" and isinstance(v, (ast.Tuple, ast.List)) and d.index is not None and d.index < len(v.elts) and not any(isinstance(x, ast.Starred) for x in v.elts):
+            v = v.elts[d.index]
+        if d.kind == "aug" and d.node is not None:
+            prov = flow.prov(u)
+            prior = [p for p in u.rd.reaching(d.node, d.name) if p is not d]
+            pk = T_
+            for p in prior:
+                pk = join_kind(pk, prov._def(p, 0)[0])
+            vk = prov.kind(v, d.node, 0, ancestor_conds(u, v))[0]
+            prior_const = all(p.kind in ("assign", "walrus") and p.index is None and self.is_const(u, p.value, p.node) for p in prior)
+            if (pk == X_ and vk != X_ and not self.is_const(u, v, d.node)) or (vk == X_ and pk != X_ and not prior_const):
+                return f"`{norm(d.stmt)[:80]}` puts trusted text and request-derived data into one string"
+            for p in prior:
+                r = self.mixed_def(u, p, depth + 1)
+                if r is not None:
+                    return r
+        return self.mixed(u, v, d.node, depth + 1)
+
+    # -- the base ----------------------------------------------------------------
+    def from_param(self, u: Unit, e: ast.AST | None, node: Node | None, root: Unit, pname: str, depth: int = 0) -> bool:
+        """does the value of `e` depend on parameter `pname` of `root` - on every reaching definition and every
+        arm of a selection (within an expression: some operand does)?"""
+        if e is None or depth > 12 or isinstance(e, ast.Constant):
+            return False
+        if isinstance(e, ast.Name):
+            if u.lambda_param(e):
+                return False
+            if node is not None and u._is_local(e.id):
+                defs = list(u.rd.reaching(node, e.id))
+                host = u
+            else:
+                host = u.enclosing  # type: ignore[assignment]
+                while host is not None and not host._is_local(e.id):
+                    host = host.enclosing  # type: ignore[assignment]
+                if host is None:
+                    return False
+                defs = [x for ds in host.rd.gen.values() for x in ds if x.name == e.id] + [x for x in host.rd.param_defs if x.name == e.id]
+            return bool(defs) and all(self._def_from_param(host, d, root, pname, depth + 1) for d in defs)
+        if isinstance(e, ast.IfExp):
+            return self.from_param(u, e.body, node, root, pname, depth + 1) and self.from_param(u, e.orelse, node, root, pname, depth + 1)
+        if isinstance(e, ast.BoolOp):
+            # `directory or "."`: a constant arm replaces a falsy value only
+            vals = [v for v in e.values if not isinstance(v, ast.Constant)]
+            if isinstance(e.op, ast.And):
+                vals = vals[-1:]
+            return bool(vals) and all(self.from_param(u, v, node, root, pname, depth + 1) for v in vals)
+        if isinstance(e, ast.NamedExpr):
+            return self.from_param(u, e.value, node, root, pname, depth + 1)
+        if isinstance(e, ast.Call):
+            tg = self.flow.target_of(u, e)
+            hu = self.flow.by_func.get(id(tg[0].node)) if tg is not None else None
+            if hu is not None:
+                rets = [r for r in astq.returns_of(hu.node) if r.value is not None and not astq.is_none(r.value)]
+                return bool(rets) and all(self.from_param(hu, r.value, hu.cfg.node_of(r), root, pname, depth + 1) for r in rets)
+        # any other expression (a call, a method call, formatting, an operator) depends on what its operands depend on
+        kids: list[ast.AST] = []
+        for ch in ast.iter_child_nodes(e):
+            if isinstance(ch, ast.keyword):
+                kids.append(ch.value)
+            elif isinstance(ch, ast.expr) and not (isinstance(e, ast.Call) and ch is e.func and isinstance(ch, ast.Name)):
+                kids.append(ch)
+        return any(self.from_param(u, ch, node, root, pname, depth + 1) for ch in kids)
+
+    def _def_from_param(self, u: Unit, d: Def, root: Unit, pname: str, depth: int) -> bool:
+        if d.kind == "param":
+            if u is root:
+                return d.name == pname
+            sites = [(cu, c, off) for cu, c, off in self.flow.sites_of(u)]
+            args = [(cu, c, a) for cu, c, off in sites for p, a in self.flow.bind(u, off, c) if p == d.name]
+            return bool(args) and all(self.from_param(cu, a, cu.cfg.node_of(c), root, pname, depth + 1) for cu, c, a in args)
+        if d.value is None or d.node is None or d.kind in ("import", "def", "except", "del"):
+            return False
+        v = d.value
+        if d.kind == "unpack" and isinstance(v, (ast.Tuple, ast.List)) and d.index is not None and d.index < len(v.elts) and not any(isinstance(x, ast.Starred) for x in v.elts):
+            v = v.elts[d.index]
+        if d.kind == "aug":
+            prior = [p for p in u.rd.reaching(d.node, d.name) if p is not d]
+            if prior and all(self._def_from_param(u, p, root, pname, depth + 1) for p in prior):
+                return True
+        return self.from_param(u, v, d.node, root, pname, depth + 1)
+
+
+def bound_in_comp(e: ast.Name, stop: ast.AST) -> ast.comprehension | None:
+    return bound_in_enclosing_comp(e, stop)
+
+
+def _base_side_rule(ctx: Ctx, flow: _Flow) -> None:
+    """R14.5: at every safe_join call whose components carry request data, no component has trusted non-constant
+    text joined into it, and - in send_from_directory - the base is built from the `directory` parameter."""
+    side = _Side(flow)
+    n_calls = n_dir = 0
+    sfd = flow.sfd
+    for u in flow.units:
+        prov = flow.prov(u)
+        in_sfd = not (u.owner.cls is flow.sdm or u.owner.module is flow.sdm.module)
+        for c in sorted((n for n in own_nodes(u.node) if isinstance(n, ast.Call) and _is_safe_join(u, n)), key=lambda n: (n.lineno, n.col_offset)):
+            node = u.cfg.node_of(c)
+            if not c.args or isinstance(c.args[0], ast.Starred):
+                continue  # R14.2 reports the missing base
+            comps = [a.value if isinstance(a, ast.Starred) else a for a in c.args[1:]] + [k.value for k in c.keywords]
+            hot = [a for a in comps if prov.kind(a, node, 0, ancestor_conds(u, a))[0] == X_]
+            if not hot:
+                continue  # nothing request-derived is joined here
+            n_calls += 1
+            why = None
+            for a in hot:
+                why = side.mixed(u, a, node)
+                if why is not None:
+                    break
+            ctx.ob("R14.5", f"{u.label}: the request-derived component(s) of `{norm(c)[:70]}` carry no trusted directory name", why is None, why or f"{', '.join('`' + norm(a)[:40] + '`' for a in hot)}: request data and constants only - every trusted name of the served path stands in the base `{norm(c.args[0])[:50]}`, which is what the check contains the result in", u.owner, c, f"{u.label} safe_join components")
+            if in_sfd:
+                n_dir += 1
+                ok = side.from_param(u, c.args[0], node, sfd, "directory")
+                ctx.ob("R14.5", f"{u.label}: the base of `{norm(c)[:70]}` is built from send_from_directory's `directory`", ok, f"base `{norm(c.args[0])[:60]}`" + (" depends on the `directory` parameter on every path" if ok else " does not (on some path) depend on the `directory` parameter: the result is contained in something else than the directory the caller named"), u.owner, c, f"{u.label} safe_join base from directory")
+    ctx.floor("R14.5", "safe_join calls with request-derived components", n_calls, 2)
+    ctx.floor("R14.5", "safe_join calls reached from send_from_directory", n_dir, 1)
 
 
 def _local_value(u: Unit, e: ast.AST | None, node: Node | None, hops: int = 3) -> ast.AST | None:
@@ -2108,6 +2461,7 @@ def run(ctx: Ctx) -> None:
     ctx.rule("R14.2", "every filesystem sink reached from send_from_directory / SharedDataMiddleware (nested callables, closures and followed helpers included) receives only trusted configuration or safe_join(<trusted base>, ...) results, never the raw request-derived name; a safe_join result that passes through anything but a copy, a selection or os.path.join with trusted operands after the containment check is no longer trusted")
     ctx.rule("R14.3", "the None of a refusing safe_join never reaches a use of the result: every path from a definition that may hold it to a use passes the not-None edge of a test about that value, and the None edge ends in NotFound / None / (None, None); SharedDataMiddleware calls the opener only where it cannot be None and otherwise falls through to the wrapped app")
     ctx.rule("R14.4", "secure_filename: the returned value passed a character filter (regex substitution or filtering comprehension) whose kept alphabet is ASCII without separators and whitespace, and strip(<set containing '.'>) follows every operation that can delete characters")
+    ctx.rule("R14.5", "a safe_join result is contained in the base (first argument) of that call and in nothing narrower: where request data is joined, no component argument has trusted non-constant text (a directory name) put into one string with the request data before the check, and in send_from_directory the base is built from the `directory` parameter")
     _safe_join_rule(ctx)
     _sinks_rule(ctx)
     _secure_filename_rule(ctx)
